@@ -94,7 +94,7 @@ int main(void){
 #ifdef X_WRAP_ALLOC
 		} else if(!strcmp(c,"FC")){
 			/* fork twin: the child runs the call with free-recording and reports "r <ret> <hexlog>" */
-			extern size_t x_alloc_record(size_t), x_alloc_loglen(void), x_alloc_log(unsigned char*, size_t), x_alloc_reset(void);
+			extern size_t x_alloc_record(size_t), x_alloc_loglen(void), x_alloc_log(unsigned char*, size_t), x_alloc_reset(void), x_alloc_fail_at(size_t), x_alloc_get_fail_at(void), x_alloc_failed(void);
 			char* fn=tok(&s); uint64_t a[14]={0}; int n=0; char* t; int pfd[2]; pid_t pid;
 			fn12 f=(fn12)sym(fn);
 			while((t=tok(&s))&&n<14) a[n++]=parse_arg(t);
@@ -106,11 +106,12 @@ int main(void){
 				uint64_t r; size_t ln, i; unsigned char* lg; FILE* o = fdopen(pfd[1], "w");
 				static const char hx[]="0123456789abcdef";
 				close(pfd[0]);
-				x_alloc_reset(); x_alloc_record(1); x_alloc_active = 1;
+				{ size_t fa = x_alloc_get_fail_at(); x_alloc_reset(); x_alloc_fail_at(fa); }	/* the injected failure index set by the parent survives */
+				x_alloc_record(1); x_alloc_active = 1;
 				r=f(a[0],a[1],a[2],a[3],a[4],a[5],a[6],a[7],a[8],a[9],a[10],a[11],a[12],a[13]);
 				x_alloc_active = 0;
 				ln = x_alloc_loglen(); lg = (unsigned char*)malloc(ln ? ln : 1); x_alloc_log(lg, ln);
-				fprintf(o, "r %llx ", (unsigned long long)r);
+				fprintf(o, "r %llx %u ", (unsigned long long)r, (unsigned)x_alloc_failed());
 				for (i = 0; i < ln; ++i) { fputc(hx[lg[i] >> 4], o); fputc(hx[lg[i] & 15], o); }
 				fputc('\n', o); fflush(o);
 				_exit(0);
@@ -163,6 +164,12 @@ int main(void){
 			if(id<0||id>=MAXBUF||sid<0||sid>=MAXBUF||!B[sid].used) die("badbuf");
 			if(B[id].used) free(B[id].p);
 			B[id].p=(unsigned char*)malloc(B[sid].n); B[id].n=B[sid].n; B[id].used=1;
+			if(B[sid].n) memcpy(B[id].p,B[sid].p,B[sid].n);
+			printf("ok\n");
+		} else if(!strcmp(c,"CB")){
+			/* CB <dst> <src>: copy the content of src over dst (equal sizes; no allocation: the heap layout is left as it is) */
+			long id=atol(tok(&s)); long sid=atol(tok(&s));
+			if(id<0||id>=MAXBUF||sid<0||sid>=MAXBUF||!B[sid].used||!B[id].used||B[id].n!=B[sid].n) die("badbuf");
 			if(B[sid].n) memcpy(B[id].p,B[sid].p,B[sid].n);
 			printf("ok\n");
 		} else if(!strcmp(c,"F")){
